@@ -14,6 +14,9 @@ import (
 )
 
 func main() {
+	if len(os.Args) > 1 && os.Args[1] == "check" {
+		os.Exit(runCheck(os.Args[2:]))
+	}
 	repo := flag.String("repo", "/repo", "repository to analyse")
 	hdir := flag.String("harness", "/verif/harness", "harness directory")
 	prefix := flag.String("prefix", "Verif", "harness name prefix")
